@@ -43,11 +43,42 @@ class LazyOperator:
         self.args = args
         self.symbol = self.SYMBOLS[op.__name__]
 
+    # Precedence of the operators in the formula grammar (the higher, the tighter)
+    PRECEDENCE = {
+        "eq": 1,
+        "ne": 1,
+        "le": 1,
+        "lt": 1,
+        "ge": 1,
+        "gt": 1,
+        "add": 2,
+        "sub": 2,
+        "mul": 3,
+        "truediv": 3,
+        "pow": 4,
+        "pos": 5,
+        "neg": 5,
+    }
+
     def __str__(self):
+        # The string is the name of the term. Parentheses are written where the grammar needs them
+        # to read the same expression back ('(x + z) * 2' is not 'x + z * 2'); redundant ones are not.
+        precedence = self.PRECEDENCE[self.op.__name__]
+
+        def operand(arg, tighter_only):
+            string = str(arg)
+            if isinstance(arg, LazyOperator):
+                arg_precedence = self.PRECEDENCE[arg.op.__name__]
+                if arg_precedence < precedence or (tighter_only and arg_precedence == precedence):
+                    return f"({string})"
+            return string
+
         if len(self.args) == 1:
-            return f"{self.symbol}{self.args[0]}"
+            return f"{self.symbol}{operand(self.args[0], False)}"
         else:
-            return f"{self.args[0]} {self.symbol} {self.args[1]}"
+            # Binary operators are left-associative: an operand of equal precedence needs
+            # parentheses only on the right
+            return f"{operand(self.args[0], False)} {self.symbol} {operand(self.args[1], True)}"
 
     def __hash__(self):
         return hash((self.symbol, *self.args))
